@@ -51,7 +51,7 @@ ELIGIBLE = {
 
 # getters that traits itself runs while it notifies the listeners of a property
 # (to provide the new value): a failure there is contained like a handler failure
-NOTIF_GETTERS = {"getter:dp"}
+NOTIF_GETTERS = {"getter:dp", "getter:cp"}
 
 # 'sv' of objs[0] and objs[1] are kept equal by sync_trait(mutual=True): the 2nd
 # validation during a set_sv is the partner's, made by the library's own change
